@@ -468,26 +468,59 @@ def _lex_eq(a, b):
 
 
 class SDateTime(Sym):
-    """datetime with at least one symbolic field.  tz is None or a tzinfo object (real or zone-theory)."""
+    """datetime with at least one symbolic part.  tz is None or a tzinfo object (real or zone-theory).
+    Two interchangeable representations, each derived lazily from the other: the seven calendar
+    fields, or the wall clock in microseconds since ordinal 0 (the timezone pipeline only ever needs
+    the latter, which keeps its obligations linear)."""
 
-    __slots__ = ("y", "m", "d", "H", "M", "S", "us", "tz", "fold")
+    __slots__ = ("_f", "_w", "tz", "fold")
 
     def __init__(self, y, m, d, H=0, M=0, S=0, us=0, tz=None, fold=0):
-        self.y, self.m, self.d, self.H, self.M, self.S, self.us = y, m, d, H, M, S, us
+        self._f = (y, m, d, H, M, S, us)
+        self._w = None
         self.tz = tz
         self.fold = fold
 
-    def __repr__(self):
-        return "SDateTime(%r-%r-%r %r:%r:%r.%r tz=%r)" % (
-            self.y, self.m, self.d, self.H, self.M, self.S, self.us, self.tz)
+    @classmethod
+    def from_wall(cls, wall, tz=None, fold=0):
+        o = cls.__new__(cls)
+        o._f = None
+        o._w = wall
+        o.tz = tz
+        o.fold = fold
+        return o
 
-    year = property(lambda s: s.y)
-    month = property(lambda s: s.m)
-    day = property(lambda s: s.d)
-    hour = property(lambda s: s.H)
-    minute = property(lambda s: s.M)
-    second = property(lambda s: s.S)
-    microsecond = property(lambda s: s.us)
+    def _retz(self, tz, fold=None):
+        o = SDateTime.__new__(SDateTime)
+        o._f, o._w = self._f, self._w
+        o.tz = tz
+        o.fold = self.fold if fold is None else fold
+        return o
+
+    def fields(self):
+        if self._f is None:
+            self._f = _fields_from_wall(self._w)
+        return self._f
+
+    def __repr__(self):
+        if self._f is None:
+            return "SDateTime(wall=%r tz=%r)" % (self._w, self.tz)
+        return "SDateTime(%r-%r-%r %r:%r:%r.%r tz=%r)" % (self._f + (self.tz,))
+
+    y = property(lambda s: s.fields()[0])
+    m = property(lambda s: s.fields()[1])
+    d = property(lambda s: s.fields()[2])
+    H = property(lambda s: s.fields()[3])
+    M = property(lambda s: s.fields()[4])
+    S = property(lambda s: s.fields()[5])
+    us = property(lambda s: s.fields()[6])
+    year = property(lambda s: s.fields()[0])
+    month = property(lambda s: s.fields()[1])
+    day = property(lambda s: s.fields()[2])
+    hour = property(lambda s: s.fields()[3])
+    minute = property(lambda s: s.fields()[4])
+    second = property(lambda s: s.fields()[5])
+    microsecond = property(lambda s: s.fields()[6])
     tzinfo = property(lambda s: s.tz)
 
     def __bool__(self):
@@ -495,9 +528,6 @@ class SDateTime(Sym):
 
     def __bool_sym__(self):
         return True
-
-    def fields(self):
-        return (self.y, self.m, self.d, self.H, self.M, self.S, self.us)
 
     def date(self):
         if not _anysym(self.y, self.m, self.d):
@@ -525,6 +555,8 @@ class SDateTime(Sym):
 
     def replace(self, year=None, month=None, day=None, hour=None, minute=None, second=None,
                 microsecond=None, tzinfo=True, *, fold=None):
+        if all(v is None for v in (year, month, day, hour, minute, second, microsecond)):
+            return self._retz(self.tz if tzinfo is True else tzinfo, fold)
         return mk_datetime(
             self.y if year is None else year,
             self.m if month is None else month,
@@ -539,11 +571,13 @@ class SDateTime(Sym):
 
     # wall clock as microseconds since 0001-01-01 minus one day (ordinal based)
     def wall_us(self):
-        return (
-            self.toordinal() * US_DAY
-            + ((self.H * 60 + self.M) * 60 + self.S) * 1000000
-            + self.us
-        )
+        if self._w is None:
+            self._w = (
+                self.toordinal() * US_DAY
+                + ((self.H * 60 + self.M) * 60 + self.S) * 1000000
+                + self.us
+            )
+        return self._w
 
     def utcoffset(self):
         if self.tz is None:
@@ -624,6 +658,20 @@ class SDateTime(Sym):
     __hash__ = Sym.__hash__
 
 
+def _fields_from_wall(wall):
+    """calendar fields of a wall clock given in microseconds (range already checked)"""
+    o = wall // US_DAY
+    rem = wall % US_DAY
+    if isinstance(o, int):
+        nd = _dt.date.fromordinal(o)
+        y, m, d = nd.year, nd.month, nd.day
+    else:
+        y, m, d = _fresh_date_for_ordinal(o)
+    us = rem % 1000000
+    secs = rem // 1000000
+    return (y, m, d, secs // 3600, (secs // 60) % 60, secs % 60, us)
+
+
 def dt_fields(o):
     if isinstance(o, SDateTime):
         return o.fields()
@@ -671,6 +719,8 @@ def dt_cmp(a, b, op):
         raise TypeError("can't compare offset-naive and offset-aware datetimes")
     if aa and dt_tz(a) is not dt_tz(b):
         ka, kb = (dt_utc_us(a),), (dt_utc_us(b),)
+    elif (isinstance(a, SDateTime) and a._f is None) or (isinstance(b, SDateTime) and b._f is None):
+        ka, kb = (dt_wall_us(a),), (dt_wall_us(b),)
     else:
         ka, kb = dt_fields(a), dt_fields(b)
     if op == "eq":
@@ -768,10 +818,27 @@ def shift_datetime(dt, delta_us):
     return _raw_datetime(ny, nm, nd_, nH, nM, nS, nus, tz)
 
 
+def with_tz(dt, tz):
+    """dt.replace(tzinfo=tz) without touching the representation"""
+    if isinstance(dt, SDateTime):
+        return dt._retz(tz)
+    return _raw_datetime(*dt_fields(dt), tz)
+
+
 def _raw_datetime(y, m, d, H, M, S, us, tz, fold=0):
-    if not _anysym(y, m, d, H, M, S, us):
+    from . import zone
+
+    if not _anysym(y, m, d, H, M, S, us) and not isinstance(tz, (zone.SZone, zone.SVariant)) \
+            and not _sym_static(tz):
         return _dt.datetime(y, m, d, H, M, S, us, tzinfo=_real_tz(tz), fold=fold)
     return SDateTime(y, m, d, H, M, S, us, tz, fold)
+
+
+def _sym_static(tz):
+    """a StaticTzInfo whose offset is symbolic cannot sit on a real datetime"""
+    if tz is None or type(tz).__name__ != "StaticTzInfo":
+        return False
+    return is_sym(tz.utcoffset(None))
 
 
 def _real_tz(tz):
@@ -795,8 +862,8 @@ def mk_datetime(year, month=None, day=None, hour=0, minute=0, second=0, microsec
     from . import zone
 
     if not _anysym(year, month, day, hour, minute, second, microsecond) and not isinstance(
-        tzinfo, zone.SZone
-    ):
+        tzinfo, (zone.SZone, zone.SVariant)
+    ) and not _sym_static(tzinfo):
         return _dt.datetime(year, month, day, hour, minute, second, microsecond, tzinfo=tzinfo,
                             fold=fold)
     _validate_date(year, month, day)
